@@ -7,7 +7,6 @@ Inductive parse_error :=
 | InvalidExpression
 | EmptyExpression.
 
-Inductive token := Lambda | Lparen | Rparen | Number (n : nat).
 Inductive ctoken := CLambda (s : name) | CLparen | CRparen | CName (s : name).
 
 (** tokenize_dbr *)
